@@ -159,7 +159,7 @@ Section Decode.
   Lemma decode_reject : forall name d r c, lookup mirrors name = Some d -> In c (m_checks d) ->
     chk_rejects hp hs r c = true -> dec name r = None.
   Proof.
-    intros. unfold decode. rewrite H. rewrite (check_in_rejects hp hs d r c); auto.
+    intros. unfold decode. eapply den_chk_reject; eauto. eapply check_in_rejects; eauto.
   Qed.
 
   Definition thr_out_of_range (thr : Z) (n : nat) : Prop :=
